@@ -929,7 +929,7 @@ pub fn gen_doc(
 /// Text that is not a well-formed document (derived from one, or junk)
 pub fn gen_malformed(rng: &mut Rng, base: &Doc) -> String {
     let text = base.render();
-    match rng.below(7) {
+    match rng.below(9) {
         0 => String::new(),
         1 => rng
             .pick(&[
@@ -959,6 +959,26 @@ pub fn gen_malformed(rng: &mut Rng, base: &Doc) -> String {
             // cut at a random byte (ASCII, so any index is a boundary)
             let at = rng.below(text.len().max(1));
             text[..at.min(text.len())].to_owned()
+        }
+        7 | 8 => {
+            // several recovered element errors, then an item that never closes: no tree, many diagnostics
+            let lines: Vec<&str> = text.split_inclusive('\n').collect();
+            let mut out = String::new();
+            let mut in_body = false;
+            for l in lines.iter() {
+                if l.starts_with('}') {
+                    continue; // drop the closing brace
+                }
+                out.push_str(l);
+                if in_body && rng.pct(60) {
+                    out.push_str(*rng.pick(&["    int int;\n", "    = 3;\n", "    void ( );\n", "    ] x;\n"]));
+                }
+                if l.contains('{') {
+                    in_body = true;
+                    out.push_str("    , , ;\n");
+                }
+            }
+            out
         }
         5 => {
             // duplicate a random line
